@@ -36,7 +36,10 @@ def gen_input(rng: random.Random, tag: int, clash: bool):
                 r[2] = [x for x in r[2] if x != r[0]]
                 r[3] = [x for x in r[3] if x != r[1]]
         return recs
-    ps = list(dict.fromkeys(rng.choice(qprops.CP_POOL) + rng.choice(["", "", "1", "x"]) for _ in range(n)))
+    ps = list(dict.fromkeys(rng.choice(["", "", "", "", "", "@", "@"]) + rng.choice(qprops.CP_POOL) + rng.choice(["", "", "1", "x"]) for _ in range(n)))
+    if tag == 5:
+        # JSON-LD keys beginning with '@' are keywords and are added separately below
+        ps = list(dict.fromkeys(p.lstrip("@") for p in ps))
     us = qprops.uri_family(rng, max(1, 2 * len(ps) + 2))
     if tag == 2:
         if clash:
@@ -178,15 +181,22 @@ def reused_records(data):
     return objs, now
 
 
+# terms that are NOT prefix definitions: an expanded term definition without "@prefix": true in any of its spellings, or a value that
+# is neither a string nor a dictionary
+OTHER_TERMS = [{"@id": "http://other/", "@type": "@id"}, {"@id": "http://other/"}, {"@id": "http://other/", "@prefix": False},
+               {"@id": "http://other/", "@prefix": "true"}, {"@id": "http://other/", "@prefix": 1}, {"@prefix": None, "@id": "http://other/"},
+               None, 5, ["http://other/"], {"@reverse": "http://other/"}, {}]
+
+
 def jsonld_obj(data):
     ctx = {}
-    for k, t in data:
+    for j, (k, t) in enumerate(data):
         if t[0] == 0:
             ctx[k] = t[1]
         elif t[0] == 1:
             ctx[k] = {"@prefix": True, "@id": t[1]}
         else:
-            ctx[k] = {"@id": "http://other/", "@type": "@id"}
+            ctx[k] = OTHER_TERMS[(j + len(k)) % len(OTHER_TERMS)]
     return ctx
 
 
